@@ -116,6 +116,7 @@ func cmdWorker(args []string) int {
 	// per-case CPU watchdog: a case that consumes more than caseCPU seconds
 	// of CPU time (not wall clock, so machine load does not matter) does not
 	// make progress; the worker marks the journal and exits with status 3.
+	var jmu sync.Mutex
 	var caseStart atomic.Int64 // CPU microseconds at the start of the case
 	var caseIdx atomic.Int64
 	caseStart.Store(-1)
@@ -128,8 +129,12 @@ func cmdWorker(args []string) int {
 					continue
 				}
 				if cpuMicros()-s0 > int64(*caseCPU)*1e6 {
-					// re-check that we are still in the same case
+					// the journal mutex keeps the main goroutine from
+					// overwriting the mark if the case ends just now
+					jmu.Lock()
 					if caseStart.Load() != s0 {
+						// the case ended in the meantime
+						jmu.Unlock()
 						continue
 					}
 					hb := strconv.AppendInt([]byte("H "), caseIdx.Load(), 10)
@@ -142,18 +147,26 @@ func cmdWorker(args []string) int {
 	}
 	for idx := *lo; idx < *hi; idx++ {
 		caseIdx.Store(idx)
-		caseStart.Store(cpuMicros())
+		t0 := cpuMicros()
+		caseStart.Store(t0)
 		// journal: case coordinates before the case runs ("S"), completion
 		// mark afterwards ("D"); one positional write each
 		jbuf = strconv.AppendInt(append(jbuf[:0], 'S', ' '), idx, 10)
 		jbuf = append(jbuf, "                    \n"...)
+		jmu.Lock()
 		jf.WriteAt(jbuf[:24], 0)
+		jmu.Unlock()
 		c := p.Gen(*kind, idx, *seed, *tier)
 		vs := runCase(p, &c, st)
 		st.Evaluations++
+		if ms := (cpuMicros() - t0) / 1000; ms > st.MaxCaseCPUms {
+			st.MaxCaseCPUms, st.MaxCaseKind, st.MaxCaseIdx = ms, *kind, idx
+		}
+		jmu.Lock()
 		caseStart.Store(-1)
 		jbuf[0] = 'D'
 		jf.WriteAt(jbuf[:24], 0)
+		jmu.Unlock()
 		for _, v := range vs {
 			if e := wkf.match(&v); e != nil {
 				// a listed finding: keep a few witnesses, never stop for it
@@ -414,9 +427,11 @@ func cmdRun(args []string) int {
 			cpuLimit = v
 		}
 	}
-	caseCPU := 10
+	// per-case CPU budgets are kept >= 10x the most expensive case observed
+	// on the unchanged tree (evidence: coverage.most_expensive_case)
+	caseCPU := 60
 	if *tier == "thorough" {
-		caseCPU = 60
+		caseCPU = 300
 	}
 	if cl, ok := p.(interface{ CaseCPU(tier string) int }); ok {
 		caseCPU = cl.CaseCPU(*tier)
@@ -624,6 +639,7 @@ func cmdRun(args []string) int {
 		"distinct_transitions": len(total.Transitions),
 		"not_observed":         notObserved,
 		"shards":               len(shards),
+		"most_expensive_case":  map[string]any{"cpu_ms": total.MaxCaseCPUms, "kind": total.MaxCaseKind, "idx": total.MaxCaseIdx, "per_case_cpu_budget_s": caseCPU},
 		"exhaustive":           exhaustive,
 	}
 	if len(inconclusive) > 0 {
